@@ -1,5 +1,68 @@
-/- C08 — placeholder until the theorems are in; not claimed in MANIFEST.json while this comment stands. -/
+/-
+C08 — Behaviour depends on the byte stream, not on how it is cut into input calls.
+Property theorems only; helper lemmas in ScpiVerif/Lemmas/Chunking.lean.
+
+PARTIAL: the full statement is FALSE for the library as it is (known finding, DESIGN.md section 8 #10):
+the scan of SCPI_Input for a message terminator knows about definite-length blocks but not about quoted
+strings, so a line terminator inside a quoted string (or after an unterminated quote) ends the message
+when the stream arrives in pieces and not when it arrives whole.  `chunking_counterexample` proves the
+negation on a concrete stream; `input_split_partial` / `chunking_invariant_partial` prove the statement
+for streams without quote characters.
+-/
 import ScpiVerif.Model.Ctx
-import ScpiVerif.Spec.Message
+import ScpiVerif.Lemmas.Chunking
+
 namespace ScpiVerif.Props.C08
+open ScpiVerif ScpiVerif.Ctx ScpiVerif.Lexer
+
+/-- what the property compares: handler invocations with their parameters, errors, messages parsed (all in
+`events`, without the per-call return-value markers), output bytes, flushes, registers, error queue,
+and the unconsumed remainder -/
+def Observable (c : Ctx) : List Ev × Bytes × Nat × List Regs.Reg × Fifo.SpecQ × Bytes :=
+  (c.events.filter (fun e => match e with | .input _ => false | _ => true),
+   c.out.written, c.out.flushes, c.regs.regs, Fifo.EQ.abs c.eq, c.buf.take c.position)
+
+def NoQuotes (s : Bytes) : Prop := ∀ b ∈ s, b ≠ 34 ∧ b ≠ 39
+
+/-- the stream never leaves more unterminated data pending than the input buffer holds -/
+def Fits (c : Ctx) (n : Nat) : Prop := c.position + n + 1 ≤ c.bufLen
+
+/-
+NOT YET PROVED (and false without the hypothesis on quotes, see chunking_counterexample):
+
+theorem chunking_invariant (c : Ctx) (h : WF c) (cs cs' : List Bytes)
+    (hne : (∀ x ∈ cs, x ≠ []) ∧ (∀ x ∈ cs', x ≠ [])) (hs : cs.flatten = cs'.flatten) (hfit : Fits c cs.flatten.length) :
+    Observable (cs.foldl input c) = Observable (cs'.foldl input c)
+-/
+
+/-- splitting one chunk in two changes nothing observable (streams without quote characters) -/
+theorem input_split_partial (c : Ctx) (h : WF c) (a b : Bytes) (ha : a ≠ []) (hb : b ≠ [])
+    (hfit : Fits c (a.length + b.length)) (hq : NoQuotes (c.buf.take c.position ++ a ++ b)) :
+    Observable (input (input c a) b) = Observable (input c (a ++ b)) :=
+  Lemmas.Chunking.input_split_partial c h a b ha hb hfit hq
+
+/-- hence every partition of a stream into non-empty chunks behaves like feeding it whole, and
+therefore like feeding it one byte at a time -/
+theorem chunking_invariant_partial (c : Ctx) (h : WF c) (cs : List Bytes) (hne : ∀ x ∈ cs, x ≠ []) (hcs : cs ≠ [])
+    (hfit : Fits c cs.flatten.length) (hq : NoQuotes (c.buf.take c.position ++ cs.flatten)) :
+    Observable (cs.foldl input c) = Observable (input c cs.flatten) :=
+  Lemmas.Chunking.chunking_invariant_partial c h cs hne hcs hfit hq
+
+/-- a zero-length call executes whatever is buffered as one complete message and empties the buffer -/
+theorem flush_executes_pending (c : Ctx) (h : WF c) :
+    let c' := input c []
+    c'.position = 0 ∧
+    (c'.events.drop c.events.length).head? = some (Ev.parseMsg (c.buf.take c.position)) ∧
+    (∃ r, (c'.events.getLast? = some (Ev.input r))) :=
+  Lemmas.Chunking.flush_executes_pending c h
+
+/-- the full statement fails: `TXT "a<LF>b"<LF>` fed whole delivers the string to the handler, fed in two
+pieces (cut after the embedded line feed) it raises errors instead -/
+theorem chunking_counterexample :
+    let cmds : List Cmd := [⟨[84, 88, 84], 1, [.pText true 16]⟩]                       -- pattern "TXT", reads one text parameter
+    let c := Ctx.init cmds [] 64 4 true
+    let s : Bytes := [84, 88, 84, 32, 34, 97, 10, 98, 34, 10]                          -- TXT "a\nb"\n
+    Observable (input c s) ≠ Observable (input (input c (s.take 7)) (s.drop 7)) := by
+  decide +kernel
+
 end ScpiVerif.Props.C08
